@@ -230,6 +230,14 @@ var cliFiles = map[string][]byte{
 {"k":9,"v":"nine","w":1}
 {"k":null,"v":"nokey","w":4}
 `),
+	// a heterogeneous file: columns whose values are composites of the same kind with different inner
+	// types, so that the inferred column type is a TypeSum over lists/objects of different inner types
+	"h.json": []byte(`{"id":1,"m":"x","o":{"x":1,"y":"a"},"l":[1,2],"n":null,"lo":[{"a":1}]}
+{"id":2,"m":[1,2],"o":{"x":"s","y":"b"},"l":["a"],"n":[1.5],"lo":[{"a":"s"}]}
+{"id":3,"m":["a"],"o":"str","l":[[1]],"n":["z"],"lo":[]}
+{"id":4,"m":null,"o":{"x":[1],"y":null},"l":[],"n":null,"lo":[{"a":null}]}
+{"id":5,"m":[true],"o":{"x":["q"],"y":"c"},"l":[null,2],"n":[[true]],"lo":[{"a":[1]},{"a":["w"]}]}
+`),
 	"c.csv": []byte("cid,n,name,score\n1,10,ab,1.5\n2,,cd,\n3,7,12,2.5\n4,0,,3\n"),
 }
 
@@ -294,7 +302,7 @@ func renderItems(items []cliItem) string {
 }
 
 func buildCLIQuery(rng *rand.Rand, idx int) cliQuery {
-	shapes := []string{"project", "project", "where", "star", "join-left", "join-right", "join-outer", "join-inner", "groupby", "global-agg", "distinct", "subquery", "csv", "csv-join", "star-t2", "range"}
+	shapes := []string{"project", "project", "where", "star", "join-left", "join-right", "join-outer", "join-inner", "groupby", "global-agg", "distinct", "subquery", "csv", "csv-join", "star-t2", "range", "hetero", "hetero"}
 	switch shapes[idx%len(shapes)] {
 	case "project":
 		items := pickItems(rng, cliItemsA)
@@ -371,6 +379,22 @@ func buildCLIQuery(rng *rand.Rand, idx int) cliQuery {
 		kw := []string{"LEFT JOIN", "RIGHT JOIN", "OUTER JOIN"}[rng.Intn(3)]
 		items := pickItems(rng, cliItemsC[:4], cliItemsB[:9])
 		return cliQuery{sql: "SELECT " + renderItems(items) + " FROM c.csv c " + kw + " t2.json b ON float(c.cid) = b.k", items: items}
+	case "hetero":
+		hi := []string{"h.id", "h.m", "h.o", "h.l", "h.n", "h.lo", "h.m::[]", "h.m::string", "h.o::{}", "(h.o::{})->x", "(h.o::{})->y", "h.l[0]", "h.l[1]", "h.n::[]", "(h.n::[])[0]",
+			"COALESCE(h.n, h.l)", "COALESCE(h.n, h.m)", "COALESCE(h.m, h.l)", "COALESCE(h.n::[], h.lo)", "COALESCE(h.m::[], h.n::[], h.l)", "COALESCE(h.o::{}, h.lo[0])", "h.lo[0]", "h.lo[1]->a", "len(h.l)", "string(h.m)",
+			"(h.m, h.l)", "(SELECT g.l FROM h.json g)", "(SELECT g.m FROM h.json g WHERE g.id > 1.0)", "COALESCE(h.n, (SELECT g.id FROM h.json g))"}
+		if rng.Intn(4) == 0 {
+			return cliQuery{sql: "SELECT * FROM h.json h"}
+		}
+		n := 1 + rng.Intn(4)
+		parts := make([]string, n)
+		for i := range parts {
+			parts[i] = fmt.Sprintf("%s AS c%d", hi[rng.Intn(len(hi))], i)
+		}
+		if rng.Intn(5) == 0 {
+			return cliQuery{sql: "SELECT h.n IS NULL AS g, array_agg(h.l) AS a0, array_agg(COALESCE(h.n, h.m)) AS a1 FROM h.json h GROUP BY h.n IS NULL"}
+		}
+		return cliQuery{sql: "SELECT " + strings.Join(parts, ", ") + " FROM h.json h"}
 	case "range":
 		return cliQuery{sql: "SELECT r.i AS c0, (r.i * 2) AS c1, (r.i > 2) AS c2, int(string(r.i)) AS c3 FROM range(start=>0, end=>" + fmt.Sprint(1+rng.Intn(4)) + ") r"}
 	}
